@@ -88,6 +88,13 @@ def _space_bundle(rng):
     p["src"] = ("NONE", 1, 0) if rng.random() < 0.4 else genb.rnd_eid(rng, allow_none=False)
     n = rng.randrange(0, 5)
     cs = [_mk_block(rng, rng.choice(KINDS), rng.choice([1, 2, 3]), rng.random() < 0.15) for _ in range(n)]
+    if rng.random() < 0.2:
+        # blocks of one and the same UNKNOWN type may occur any number of times - also the unassigned types next to the once-only
+        # types 6, 7 and 10 (5, 8, 9, 11) and types that alias them modulo 256
+        t = rng.choice([5, 8, 8, 9, 9, 11, 2, 192, 262, 263, 266])
+        k = rng.choice([2, 2, 3])
+        free = [x for x in (4, 5, 6, 7, 8) if x not in [c["num"] for c in cs]]
+        cs = [dict(type=t, num=free[i], flags=0, crc=("N",), data=("UNK", rng.choice([b"", b"\x00", b"ab"]))) for i in range(k)] + cs
     if rng.random() < 0.6:   # steer towards otherwise-valid bundles
         cs = [c for c in cs if c["type"] != 1] + [_mk_block(rng, "payload", 1, False)]
     return dict(p=p, cs=cs)
